@@ -435,9 +435,6 @@ func exec(x *fw.Ctx, c Case) {
 		}
 	}
 	x.Cover("program:lamfree=" + yn(lamfree))
-	if !lamfree {
-		x.Cover("avoided:lambda-in-operator-position-with-bare-outer-variable-body")
-	}
 	x.Cover("avoided:funcall-without-arguments (C04 matter)")
 	var fails []failure
 	okCount, total := 0, 0
@@ -792,15 +789,16 @@ func init() {
 	fw.Register(fw.Spec[Case]{
 		ID: "C08",
 		Rule: "case kinds: (A) programs - " +
-			"3 fixed probe programs (forward call with arguments, caller created between two redefinitions, lambda head with a bare outer variable), then " +
-			"seeded programs of 2-4 defuns (DAG calls, self recursion, mutual recursion on a decreasing " +
-			"counter; arguments, let/let*, if/cond/when/unless, and/or, setq, dotimes, funcall/apply, lambda forms, list building, trace markers, 0-3 global variables) " +
-			"plus a main form; each program is run under the orders of its defuns (all; quick tier: 10 of the 24 orders of 4 defuns) x 8 delivery modes (form by form, " +
-			"form by form compiled, whole Code evaluated, Code.Compile, CompileString, (eval 'form), main form compiled before its callees exist, load of a file) x " +
-			"k=2..5 (one case in 12: 100) evaluations of the same code object, and under 4 redefinition histories (fresh / re-used, compiled / list-form main objects, " +
-			"1-3 redefinitions with renamed parameters; every second history redefines one function repeatedly); every name is fresh per treatment. One case in six has " +
-			"only parameterless functions (recursion on a global counter). Avoid set: a lambda in operator position with a bare outer variable as body (listed finding) is " +
-			"kept to a few percent of programs; (funcall f) without arguments is never generated (C04). " +
+			"4 fixed probe programs (defun inside a let using its variable under a name the caller also uses and redefined; forward call with arguments; caller " +
+			"created between two redefinitions; lambda head with a bare outer variable), then seeded programs of 2-4 defuns (DAG calls, self recursion, mutual " +
+			"recursion on a decreasing counter; arguments, let/let*, if/cond/when/unless, and/or, setq, dotimes, funcall/apply, lambda forms, list building, trace " +
+			"markers, 0-3 global variables; one definition in three is written inside let / let* / nested lets and uses their variables, half of which are named " +
+			"like the parameters of callers) plus a main form; each program is run under the orders of its defuns (all; quick tier: 10 of the 24 orders of 4 " +
+			"defuns) x 8 delivery modes (form by form, form by form compiled, whole Code evaluated, Code.Compile, CompileString - not for programs with a defun " +
+			"inside let -, (eval 'form), main form compiled before its callees exist, load of a file) x k=2..5 (one case in 12: up to 100) evaluations of the same " +
+			"code object, and under 4 redefinition histories (fresh / re-used, compiled / list-form main objects, 1-3 redefinitions with renamed parameters and " +
+			"changed enclosing lets; every second history redefines one function repeatedly); every name is fresh per treatment. One case in six has only " +
+			"parameterless functions (recursion on a global counter). (funcall f) without arguments is never generated (C04). " +
 			"(B) reeval, a model-free relation monitor over the forms that receive raw list arguments (enumerated at run time from FuncDoc kind / SkipEval; the ones " +
 			"without a committed argument template are counted as reeval-not-templated:<name>): a deterministic block (every template on leaf data, every ordered pair " +
 			"of templates) then seeded compositions of depth <= 3 with all arguments written as lists and all data bound inside the form; the same Code object " +
